@@ -262,6 +262,7 @@ func c16r2(c *core.Ctx) {
 	// readers
 	if g := p.Func("util", "(*tlv8Container).GetBuffer"); g != nil {
 		ok := false
+		var extra *ssa.If
 		core.Instrs(g, func(i ssa.Instruction) {
 			if core.IsCall(i, "(*bytes.Buffer).Write") {
 				if _, isVal := core.FieldLoad(core.Args(i)[0], tTLVItem, "value"); isVal {
@@ -276,9 +277,36 @@ func c16r2(c *core.Ctx) {
 					if core.Dominated(i, tagEq) {
 						ok = true
 					}
+					// … and of every such item: no other test on an item decides whether a value is appended (a loop that
+					// stops or skips at some other tag loses the values of the tags behind it)
+					for _, iff := range controlDepsAll(i.Block()) {
+						if t, f := tagEq(iff.Cond); t || f {
+							continue
+						}
+						readsItem := false
+						walkOperands(iff.Cond, 6, func(v ssa.Value) {
+							if fa, isF := v.(*ssa.FieldAddr); isF && core.TypeIs(fa.X.Type(), tTLVItem) {
+								readsItem = true
+							}
+							if fl, isF := v.(*ssa.Field); isF && core.TypeIs(fl.X.Type(), tTLVItem) {
+								readsItem = true
+							}
+						})
+						if readsItem {
+							extra = iff
+						}
+					}
 				}
 			}
 		})
+		if ok {
+			pos := g.Pos()
+			if extra != nil && extra.Cond.Pos().IsValid() {
+				pos = extra.Cond.Pos()
+			}
+			c.Check(extra == nil, "reassembly-exact@"+fname(g), pos, "whether an item's value is appended depends on no other test on the items than its tag being the requested one",
+				"GetBuffer appends an item's value under a further condition on the items (it stops or skips at some item): values set for that tag, and for the tags behind it, read back empty")
+		}
 		c.Check(ok, "reassembly@"+fname(g), g.Pos(), "GetBuffer concatenates, in item order, the values whose tag equals the requested tag", "GetBuffer does not concatenate exactly the items of the requested tag")
 	}
 	if g := p.Func("util", "(*tlv8Container).GetByte"); g != nil {
